@@ -156,14 +156,16 @@ def check(ctx: Ctx) -> list[RuleResult]:
                 for t in cfg.nodes:
                     if t.kind != "test":
                         continue
-                    for c in ast.walk(t.ast):
-                        if isinstance(c, ast.Compare) and len(c.ops) == 1 and isinstance(c.ops[0], (ast.Eq, ast.NotEq)):
-                            l, r = norm(c.left), norm(c.comparators[0])
-                            if ("hdr" in l.lower() and ("tx_header" in r or "rx_header" in r)) and not any(isinstance(x, ast.Subscript) for x in (c.left, c.comparators[0])):
-                                lab = "true" if isinstance(c.ops[0], ast.Eq) else "false"
-                                # == inside an `and`: holds on the true edge; != alone: equality holds on the false edge
-                                if cfg.edge_dominates(t, lab, node):
-                                    guards.append(f"{l} {'==' if lab == 'true' else '!='} {r}")
+                    # only comparisons whose truth follows from the edge taken: conjuncts on the true edge (`a and x == y`),
+                    # disjuncts on the false edge (`x != y or b`); a comparison under the other connective implies nothing
+                    for lab in ("true", "false"):
+                        for c, holds in _implied(t.ast, lab == "true"):
+                            if isinstance(c, ast.Compare) and len(c.ops) == 1 and isinstance(c.ops[0], (ast.Eq, ast.NotEq)):
+                                equal = holds if isinstance(c.ops[0], ast.Eq) else not holds
+                                l, r = norm(c.left), norm(c.comparators[0])
+                                if equal and ("hdr" in l.lower() and ("tx_header" in r or "rx_header" in r)) and not any(isinstance(x, ast.Subscript) for x in (c.left, c.comparators[0])):
+                                    if cfg.edge_dominates(t, lab, node):
+                                        guards.append(f"{l} == {r} (on the {lab} edge of `{norm(t.ast)[:40]}...`)")
                 if guards:
                     r3.ok({"transition": f"{cls}: {norm(n)[:50]}", "guards": guards[:3]})
                 else:
@@ -191,6 +193,17 @@ def check(ctx: Ctx) -> list[RuleResult]:
         r3.fail("hgi-substitution", cs.loc(), f"the 18:000730 placeholder is substituted on one side only (cmd={sub_cmd}, pkt={sub_pkt}): the echo of a command sent from the placeholder id would never match")
     out.append(r3)
     return out
+
+
+def _implied(t: ast.expr, edge: bool) -> list[tuple[ast.expr, bool]]:
+    """Atoms of a boolean test whose truth value is fixed once the test evaluated to `edge`: [(atom, value)]."""
+    if isinstance(t, ast.UnaryOp) and isinstance(t.op, ast.Not):
+        return _implied(t.operand, not edge)
+    if isinstance(t, ast.BoolOp):
+        if (isinstance(t.op, ast.And) and edge) or (isinstance(t.op, ast.Or) and not edge):
+            return [x for v in t.values for x in _implied(v, edge)]
+        return []
+    return [(t, edge)]
 
 
 def _prev_siblings(n: ast.AST) -> list[ast.AST]:
